@@ -281,6 +281,12 @@ INST_FAMILIES = [
      "namespace a { template<class T> struct W { T t; }; struct UA { W<int> w; W<char> c; }; }\n"
      "namespace b { template<class T> struct W { T t; T u; }; struct UB { W<int> w; }; }\n",
      {"a::W<c_int>": (4, 4), "a::W<c_char>": (1, 1), "b::W<c_int>": (8, 4)}, []),
+    # a concrete instantiation written directly inside a class template (and used nowhere else)
+    ("inside-template",
+     "template<class T> struct Pair { T lo; T hi; };\n"
+     "template<class K> struct Registry { K* keys; Pair<int> range; Pair<double> weights; };\n"
+     "struct UsesReg { Registry<char> r; };\n",
+     {"Pair<c_int>": (8, 4), "Pair<f64>": (16, 8)}, []),
     # one instantiation used from several places, and an instantiation only used through a pointer
     ("many-uses",
      "template<class T> struct Wr { T t; int n; };\n"
